@@ -208,7 +208,7 @@ def misc_ops(tables, seed, count, prefix="M"):
     ops = []
     names = ["", "a", "$a", "$$a", "a.b", "a..b", ".", "a.$b", "Ünï.cødé", "\U0001F600", "x" * 200, "a b", "$", "$.", "mydb", "mycoll"]
     for i, nm in enumerate(names):
-        for j, rp in enumerate(["REDACTED", "", "r.x_y", "é"]):
+        for j, rp in enumerate(["REDACTED", "", "r.x_y", "é", "50%", "%s_%d"]):
             ops.append(("%sh%d.%d" % (prefix, i, j), ["hash", Cfg(repl=rp).s(), "s" + hx(nm)]))
     for i in range(count):
         nm = "".join(rng.choice("abcXYZ019_.$-é") for _ in range(rng.below(12)))
